@@ -225,8 +225,12 @@ def changed(v):
     if k == 'num':
         if isinstance(v[1], float) and not math.isfinite(v[1]):
             return ['num', 0.0]
+        if isinstance(v[1], int) and abs(v[1]) > 2 ** 52:
+            return ['num', v[1] + abs(v[1]) // 2]
         return ['num', v[1] + max(1.0, abs(v[1]) * 0.5)]
     if k == 'qty':
+        if isinstance(v[1], int) and abs(v[1]) > 2 ** 52:
+            return ['qty', v[1] + abs(v[1]) // 2, v[2]]
         return ['qty', v[1] + max(1.0, abs(v[1]) * 0.5), v[2]]
     if k == 'bool':
         return ['bool', not v[1]]
@@ -291,7 +295,7 @@ def edits(m):
             if ch is not None:
                 nr = r[:xi] + [[c, ch]] + r[xi + 1:]
                 yield 'cell-content:%s' % v[0], ['grid', ver, meta, cols, rows[:ri] + [nr] + rows[ri + 1:]]
-            if v[0] in ('num', 'qty') and isinstance(v[1], (int, float)) and math.isfinite(v[1]):
+            if v[0] in ('num', 'qty') and isinstance(v[1], float) and math.isfinite(v[1]) or v[0] in ('num', 'qty') and isinstance(v[1], int) and abs(v[1]) < 2 ** 52:
                 # the smallest changes that are beyond the 1e-6 tolerance
                 for delta in (1e-5, -1e-5, 1.0):
                     nv = v[1] + delta
@@ -299,6 +303,12 @@ def edits(m):
                         ch2 = [v[0], nv] + v[2:]
                         nr = r[:xi] + [[c, ch2]] + r[xi + 1:]
                         yield 'cell-content-small:%s' % v[0], ['grid', ver, meta, cols, rows[:ri] + [nr] + rows[ri + 1:]]
+            if v[0] in ('num', 'qty') and isinstance(v[1], int) and not isinstance(v[1], bool):
+                # whole numbers one apart differ by far more than the tolerance, however large they are
+                for delta in (1, -1):
+                    ch2 = [v[0], v[1] + delta] + v[2:]
+                    nr = r[:xi] + [[c, ch2]] + r[xi + 1:]
+                    yield 'cell-content-int:%s' % v[0], ['grid', ver, meta, cols, rows[:ri] + [nr] + rows[ri + 1:]]
             nr = r[:xi] + r[xi + 1:]
             yield 'cell-removed', ['grid', ver, meta, cols, rows[:ri] + [nr] + rows[ri + 1:]]
             return
@@ -325,10 +335,10 @@ def check_grid(case, excl=frozenset(), acc=None):
     inf_excl = 'grideq.inf' in excl and any(
         isinstance(x, float) and math.isinf(x) for x in _floats(m))
     if not nan and not inf_excl:
-        for what, other in (('copy', g2), ('deepcopy', copy.deepcopy(g1))):
+        for what, other in (('copy', g2), ('deepcopy', copy.deepcopy(g1)), ('itself', g1)):
             if eq(g1, other, what) is False or eq(other, g1, what) is False:
                 raise Violation('grid-copy-unequal', dict(case, what=what), 'grid is unequal to its %s' % what, (what,))
-        for fmt, mode in (('zinc', hszinc.MODE_ZINC), ('json', hszinc.MODE_JSON)):
+        for fmt, mode in (('zinc', hszinc.MODE_ZINC), ('json', hszinc.MODE_JSON)) if not case.get('no_roundtrip') else ():
             back = guarded('roundtrip-raises', case, lambda: hszinc.parse(hszinc.dump(g1, mode=mode), mode=mode))
             if eq(g1, back, 'roundtrip-' + fmt) is False or eq(back, g1, 'roundtrip-' + fmt) is False:
                 raise Violation('grid-roundtrip-unequal', dict(case, what=fmt), 'grid is unequal to its %s round trip' % fmt, (fmt,))
@@ -346,6 +356,65 @@ def check_grid(case, excl=frozenset(), acc=None):
                 raise Violation('grid-edit-equal', dict(case, what=label, edited=em),
                                 'grid equals a grid that differs materially (%s, order %s)' % (label, o), (label.split(':')[0],))
     return n
+
+
+BIG_INTS = [2 ** 53, 2 ** 53 + 1, -(2 ** 53) - 1, 10 ** 18, 10 ** 18 + 1, 2 ** 63, 2 ** 64 + 1, 10 ** 30 + 1, 10 ** 308, 10 ** 309, 10 ** 400, -(10 ** 400)]
+
+
+def check_grid_pair_unequal(case):
+    """case = {'pair': [grid model, grid model]} - two grids that differ materially"""
+    ga, gb = model.grid_from_model(case['pair'][0]), model.grid_from_model(case['pair'][1])
+    for x, y, o in ((ga, gb, 'a,b'), (gb, ga, 'b,a')):
+        try:
+            r1, r2 = (x == y), (x != y)
+        except Exception as e:  # noqa
+            raise Violation('grid-raises', case, 'comparison (%s) raised %s' % (o, describe_exc(e)))
+        if r1 is not False or r2 is not True:
+            raise Violation('grid-edit-equal', case, 'grids that differ materially (whole numbers one apart): == gave %r, != gave %r (order %s)' % (r1, r2, o))
+
+
+def check_after_refusal(case):
+    """case = {'grid': model, 'refused': k}.  A grid on which a store was refused (a 3.0-only value under a 2.0 label, a row
+    that is no dict, a position argument that names no key) is still a grid: it equals itself, its deep copy and - when the
+    refused store left it as it was - a freshly built twin; the comparison never raises."""
+    import hszinc
+    m, k = case['grid'], case['refused']
+    g = model.grid_from_model(m)
+    col = m[3][0][0]
+    bad = hszinc.NA if m[1] == '2.0' else object()
+    refused = False
+    try:
+        if k == 0:
+            g.metadata['zzNew'] = bad
+        elif k == 1:
+            g.column[col]['zzNew'] = bad
+        elif k == 2:
+            g.append({col: bad} if m[1] == '2.0' else 42)
+        elif k == 3:
+            g.metadata.add_item('zzNew', bad if m[1] == '2.0' else 1, pos_key='zzNoSuchKey')
+        else:
+            g.column[col].add_item('zzNew', bad if m[1] == '2.0' else 1, index=0, pos_key='zzNoSuchKey')
+    except Exception:  # noqa - which stores are refused, and how, is C10 / C14 / C16's subject
+        refused = True
+
+    def eq(x, y, what):
+        try:
+            r1, r2 = (x == y), (x != y)
+        except Exception as e:  # noqa
+            raise Violation('grid-raises', dict(case, what=what), 'after a %s store: %s comparison raised %s' % (
+                'refused' if refused else 'accepted', what, describe_exc(e)), ('after-refusal',))
+        if r1 is not True or r2 is not False:
+            raise Violation('grid-copy-unequal', dict(case, what=what), 'after a refused store the grid is unequal to %s (== %r, != %r)' % (what, r1, r2),
+                            ('after-refusal',))
+    if not refused:
+        return      # the store was accepted (an object of no Haystack kind now sits in the grid): outside the property
+    eq(g, g, 'itself')
+    dc = copy.deepcopy(g)
+    eq(g, dc, 'its deepcopy')
+    eq(dc, g, 'its deepcopy (reflected)')
+    twin = model.grid_from_model(m)
+    eq(g, twin, 'a freshly built twin')
+    eq(twin, g, 'a freshly built twin (reflected)')
 
 
 def _floats(m):
@@ -382,6 +451,8 @@ def plan(tier, seed, excl):
     t += [('triples', {'shard': i, 'of': 4}) for i in range(4)]
     t += [('random-pairs', {'shard': i, 'n': 6000 if q else 60000}) for i in range(6)]
     t += [('catalogue-grids', {'shard': i, 'of': 4}) for i in range(4)]
+    t.append(('big-int-grids', {}))
+    t.append(('grids-after-refusal', {}))
     t += [('grids', {'shard': i, 'n': 400 if q else 4000}) for i in range(16)]
     return t
 
@@ -459,6 +530,50 @@ def run(part, args, env):
             except Violation as v:
                 acc.violation(v)
         acc.exhaustive['every kind sample x every position: copy/round-trip equality and all single edits'] = True
+    elif part == 'grids-after-refusal':
+        n = 0
+        for i, m in enumerate(gen.catalogue_grids(excl)):
+            if has_nan(m):
+                continue
+            for k in range(5):
+                case = {'refused': k, 'grid': m}
+                try:
+                    check_after_refusal(case)
+                    n += 1
+                except Violation as v_:
+                    acc.violation(v_)
+        acc.bulk(n, n, labels=('after-refusal',))
+        acc.sample({'refused': 0, 'grids': n})
+    elif part == 'big-int-grids':
+        # whole numbers beyond 2**53 (where floats stop telling neighbours apart) and beyond the float range, as cell, in a
+        # list, in a dict, as a quantity, in grid and column metadata; copies must be equal, a neighbour one apart must not
+        for big in BIG_INTS:
+            for shape in range(6):
+                v = ['num', big]
+                cell = [v, ['qty', big, 'kW'], ['list', [['str', 'x'], v]], ['dict', [['k', v]]], v, v][shape]
+                meta = [['m', v]] if shape == 4 else []
+                cm = [['cm', ['qty', big, 'm']]] if shape == 5 else []
+                case = {'grid': ['grid', '3.0', meta, [['a', cm], ['b', []]], [[['a', cell], ['b', ['marker']]]]], 'no_roundtrip': True}
+                try:
+                    n = check_grid(case, excl, acc)
+                    acc.case(case, True, labels=('big-int',))
+                    acc.evals += n
+                except Violation as v_:
+                    acc.violation(v_)
+                if shape >= 2:
+                    # the neighbour inside the container / the metadata
+                    nb = ['num', big + 1]
+                    cell2 = [None, None, ['list', [['str', 'x'], nb]], ['dict', [['k', nb]]], v, v][shape]
+                    m2 = ['grid', '3.0', [['m', nb]] if shape == 4 else [], [['a', [['cm', ['qty', big + 1, 'm']]] if shape == 5 else []], ['b', []]],
+                          [[['a', cell2], ['b', ['marker']]]]]
+                    g1, g2 = model.grid_from_model(case['grid']), model.grid_from_model(m2)
+                    c2 = {'pair': [case['grid'], m2]}
+                    try:
+                        check_grid_pair_unequal(c2)
+                        acc.case(c2, True, labels=('big-int-neighbour',))
+                    except Violation as v_:
+                        acc.violation(v_)
+        acc.exhaustive['big whole numbers x 6 positions: copies equal, neighbours one apart unequal'] = True
     elif part == 'grids':
         strat = gen.grids(None, 1, excl).map(lambda m: {'grid': m})
 
@@ -473,6 +588,10 @@ def run(part, args, env):
 
 
 def replay(stage, case):
+    if 'refused' in case:
+        return check_after_refusal(case)
+    if 'pair' in case:
+        return check_grid_pair_unequal(case)
     if 'grid' in case:
         check_grid(case)
     elif 'c' in case:
